@@ -15,6 +15,7 @@ P == N("probe", "", <<>>)
 Wrap(m, t) == N(m, "", <<t>>)
 Modes == {"auto", "fill", "match", "group"}
 ST == N("stop", "", <<>>)
+SQ == N("starq", "", <<>>)
 LazyIn(m, a) == N("pipe", "", <<N(m, "", <<N("iter", "", <<a>>)>>), N("consume", "", <<>>)>>)
 
 \* trees by constructor choice; W(d): a "wrapped thing" of depth <= d
@@ -66,6 +67,11 @@ Pick ==
           \/ tree' = LazyIn(m, a)
           \/ tree' = Wrap(m2, LazyIn(m, a))
           \/ tree' = N("pipe", "", <<LazyIn(m, a), P>>)
+     \* a chain step whose argument spec fails for every element below a wildcard (the failures are misses):
+     \* the argument interpreter is over when the step is, whatever happened inside
+     \/ \E a \in Trees(SecondDepth), m \in Modes :
+          \/ tree' = N("pipe", "", <<SQ, a>>) \/ tree' = N("pipe", "", <<P, SQ, a>>)
+          \/ tree' = Wrap(m, N("pipe", "", <<SQ, a>>)) \/ tree' = N("tup", "", <<SQ, a>>)
   /\ WellModed(tree', "AUTO")
   /\ LET r == Start(tree', <<>>, <<>>) IN
        run' = [log |-> r.st.log, acts |-> r.st.acts, out |-> r.out,
